@@ -4,6 +4,10 @@
 
 package astra
 
+import "crypto/x509"
+
+var _ *x509.CertPool // contracts name types of crypto/x509
+
 // Bundle loading as seen from proxy.Run: reads files / the network, builds fresh objects, does not
 // touch the caller's configuration. (Their own behaviour is the subject of C19.)
 //@ func astra.LoadBundleZipFromPath
@@ -17,4 +21,65 @@ package astra
 //@ func astra.NewResolver
 //@   trusted
 //@   ensures result != nil
+//@   modifies nothing
+
+// ---------------------------------------------------------------------------------------------
+// C19: Astra bundle connections authenticate the server
+// ---------------------------------------------------------------------------------------------
+
+// copyTLSConfig: a clone of the bundle's configuration (bundle CA as roots, bundle client
+// certificate) with the node's SNI name and a peer-certificate callback installed.
+//@ func astra.copyTLSConfig [C19]
+//@   requires bundle != nil && bundle.TLSConfig != nil
+//@   ensures result != nil && fresh(result)
+//@   ensures sni: result.ServerName == serverName
+//@   ensures bundle-identity: result.RootCAs == old(bundle.TLSConfig.RootCAs) && result.Certificates == old(bundle.TLSConfig.Certificates)
+//@   ensures callback-installed: result.VerifyPeerCertificate != nil
+//@   modifies nothing
+
+// The callback crypto/tls runs on the certificates the server presented (at least one): it accepts
+// (returns nil) only if every certificate parsed and x509 verification of the leaf - against the
+// bundle's roots, for the bundle's host name - returned nil; any parse or verification error is returned.
+//@ loop astra.copyTLSConfig$1 #1
+//@   invariant !$vpParseFailed && !$vpVerified && len(certs) == len(rawCerts)
+//@   invariant forall(k, 0, rangeindex + 1, certs[k] != nil)
+//@ loop astra.copyTLSConfig$1 #2
+//@   invariant !$vpParseFailed && !$vpVerified && len(certs) == len(rawCerts) && certs[0] != nil
+
+//@ func astra.copyTLSConfig$1 [C19]
+//@   local $vpParseFailed bool = false
+//@   local $vpVerified bool = false
+//@   local $vpAccepted bool = false
+//@   local $vpRoots *x509.CertPool = nil
+//@   local $vpDNSName string = ""
+//@   requires len(rawCerts) >= 1 && tlsConfig != nil && bundle != nil
+//@   after x509.ParseCertificate#* set $vpParseFailed = $vpParseFailed || result1 != nil
+//@   before x509.Certificate.Verify#* set $vpVerified = true; $vpRoots = arg1.Roots; $vpDNSName = arg1.DNSName
+//@   after x509.Certificate.Verify#* set $vpAccepted = (result1 == nil)
+//@   ensures accepts-only-verified: result == nil ==> !$vpParseFailed && $vpVerified && $vpAccepted
+//@   ensures verified-against-bundle: $vpVerified ==> $vpRoots == tlsConfig.RootCAs && $vpDNSName == bundle.Host
+//@   ensures rejects-unverified: $vpVerified && !$vpAccepted ==> result != nil
+//@   modifies *
+
+// LoadBundleZip: on success the configuration trusts a pool to which the bundle's CA was added
+// successfully, presents the bundle's key pair, and names the bundle's host.
+//@ func astra.extract [C19]
+//@   requires reader != nil
+//@   modifies nothing
+
+//@ func astra.createCertPool [C19]
+//@   trusted
+//@   ensures result1 == nil ==> result0 != nil && fresh(result0)
+//@   modifies nothing
+
+//@ func astra.LoadBundleZip [C19]
+//@   local $lbAppended bool = false
+//@   local $lbPool *x509.CertPool = nil
+//@   local $lbPairOK bool = false
+//@   requires reader != nil
+//@   after x509.CertPool.AppendCertsFromPEM#1 set $lbAppended = result; $lbPool = arg0
+//@   after tls.X509KeyPair#1 set $lbPairOK = (result1 == nil)
+//@   ensures refuses-bad-parts: result1 == nil ==> $lbAppended && $lbPairOK
+//@   ensures config: result1 == nil ==> result0 != nil && result0.TLSConfig != nil && result0.TLSConfig.RootCAs == $lbPool && len(result0.TLSConfig.Certificates) == 1 && result0.TLSConfig.ServerName == result0.Host
+//@   ensures result1 != nil ==> result0 == nil
 //@   modifies nothing
